@@ -276,6 +276,10 @@ func execLine(line string) outcome {
 		return doJSONEncode(f[1], true)
 	case f[0] == "A" && len(f) == 2:
 		return doAPISequence(f[1])
+	case f[0] == "Z" && len(f) == 2:
+		n, _ := strconv.Atoi(f[1])
+		poison(n)
+		return outcome{base: "ok z"}
 	}
 	if extraOps != nil {
 		if o, ok := extraOps(f); ok {
